@@ -19,7 +19,9 @@
    order", not for a particular nesting).
 
    [derives ts g]      g is a derivation of the dialect grammar whose leaves are exactly the significant
-                       tokens of ts, in order  (so g really is "the tree the program denotes")
+                       tokens of ts, in order  (so g really is "the tree the program denotes"); it is a
+                       well-formed derivation tree: only a one-line `if` carries the short flag, and a token
+                       leaf stores (the data of) the token at its index
    [line_scoped ts g]  the layout respects the line scope of every one-line `if`
    [denotes g t]       the syntax tree t exposed by the library (generic view, Python-visible fields only)
                        is the tree denoted by g: same statement kinds, nesting, chains, lists, targets;
@@ -435,7 +437,32 @@ Fixpoint tsize (t : tree) : nat :=
   | _ => 1%nat
   end.
 
+(* well-formed derivation trees *)
+(* only a one-line if carries the short flag (the grammar reads the flag of if-nodes only) *)
+Fixpoint flags_ok (g : tree) : bool :=
+  match g with
+  | Node tag _ _ sh fs => (negb sh || (tag =? tStatIf)) && forallb flags_ok fs
+  | Lst l => forallb flags_ok l
+  | Paren _ _ x => flags_ok x
+  | Hid x => flags_ok x
+  | _ => true
+  end.
+
+(* the token stored at a leaf [Tok i t] has the data of the token with index i (the grammar looks at the token at index
+   i; [denotes] reads goto / label names from the stored copy) *)
+Fixpoint leaves_ok (ts : list token) (g : tree) : bool :=
+  match g with
+  | Node _ _ _ _ fs => forallb (leaves_ok ts) fs
+  | Lst l => forallb (leaves_ok ts) l
+  | Paren _ _ x => leaves_ok ts x
+  | Hid x => leaves_ok ts x
+  | Tok i t => if i <? 0 then false
+               else match nth_error ts (Z.to_nat i) with Some u => zlist_eqb (tdata u) (tdata t) | None => false end
+  | _ => true
+  end.
+
 Definition derives (ts : list token) (g : tree) : bool :=
+  flags_ok g && leaves_ok ts g &&
   match g_chunk (2 * tsize g + 8) g (sig_stream ts 0) with
   | Some [] => true
   | _ => false
